@@ -4,6 +4,14 @@ and record in its meta.json which checks/rules detect it; also fills `needs_to_m
 import json, os, re, subprocess, sys
 VERIF = os.path.dirname(os.path.dirname(os.path.abspath(__file__)))
 NEEDS = {
+ 'seed-C01-5': 'protein alphabet (K = 21: row stride 24 floats, 21 columns) on the AVX2 gather kernel / dispatcher with a motif of width >= 2: the table pointer advances by columns() instead of stride()',
+ 'seed-C05-5': 'the generic encoder (also the scalar tail of the SIMD encoders and every input shorter than one block) with at least two different invalid bytes handled by the scalar loop: it keeps going and reports the last one',
+ 'seed-C06-5': 'AVX2 f32 permute kernel prefetches the next sequence row one iteration ahead: an aligned 32-byte load of row i + M (one past the last row) when there is no spare capacity after the wrap rows (cloned sequence, motif of exactly 33 positions); scores are unchanged',
+ 'seed-C09-5': 'to_scoring_with_base with a base other than 2 or 10 (e, 4, 20; Python log_odds(base=..)): receiver and argument of f32::log swapped',
+ 'seed-C14-5': 'a JASPAR-2016 header with only an identifier (no description): multispace0 eats the line ending, the first matrix line becomes the description and the A column stays zero',
+ 'seed-C15-5': 'a TRANSFAC record buffer that ends inside a P0/PO matrix row before the last count is complete (truncated file): the streaming float parser returns Incomplete, which Error::from maps to unreachable!()',
+ 'seed-C18-5': 'a protein ScoringMatrix (K = 21, row 84 bytes, stride 96) with >= 2 rows read through the buffer protocol at row >= 1: row stride advertised as next_power_of_two(cols * 4) = 128',
+ 'seed-C19-5': 'reverse iteration combined with skip / step_by / nth (rev().step_by(3), nth_back): the new nth_back override forwards to nth of the inner iterator',
  'seed-C01-4': 'a striped sequence carrying more look-ahead rows than M-1 (configured once for the widest motif of a set, then fully scored with a narrower one through Pipeline::score / ScoringMatrix::score / Python calculate): wrap-(M-1) extra rows are scored and every position past the first column is mis-mapped; all backends agree with each other',
  'seed-C03-4': "AVX2 host, a scanner block of >= 2 rows whose deciding position lies in the block's last row (max_u8_avx2 re-reads row 0 and never reads the last row): Scanner::max returns None or a lower hit, depending on the block size",
  'seed-C05-4': 'the single byte U in a DNA text: from_ascii accepts it as T while the vector loops still match against "ACTGN": accepted where it must be rejected, and backends store different codes when the U sits inside a full vector block',
